@@ -636,8 +636,25 @@ class ListenerRequestHandler(BaseHTTPRequestHandler):
         # Content-Range, Expires, If-Range, Range.
 
         # Start processing the request
-        content_len = int(self.headers.get('Content-Length', 0))
-        body = self.rfile.read(content_len)
+        content_len_str = self.headers.get('Content-Length', '0')
+        try:
+            content_len = int(content_len_str)
+            if content_len < 0:
+                raise ValueError
+        except ValueError:
+            self.send_http_error(
+                400, 'header-mismatch',
+                _format("Invalid Content-Length header value: {0} "
+                        "(need a non-negative integer)", content_len_str))
+            return
+        try:
+            body = self.rfile.read(content_len)
+        except (OverflowError, MemoryError):
+            self.send_http_error(
+                413, 'header-mismatch',
+                _format("Content-Length header value is too large: {0}",
+                        content_len_str))
+            return
 
         try:
             msgid, methodname, params = self.parse_export_request(body)
